@@ -30,6 +30,8 @@ pub fn gen(seed: u64, _tier: Tier) -> ScenarioSpec {
     for e in rec.empty_types.iter_mut() {
         *e = if rng.chance(1, 2) { 3 } else { 3 + rng.below(253) as u8 };
     }
+    // what the slots of an unoccupied port hold is nobody's business: no exposed field depends on them
+    rec.empty_garbage = rng.chance(1, 4);
     rec.frames.clear();
     rec.metadata = None;
     rec.gecko = None;
